@@ -12,6 +12,21 @@ CHECKS = {
             "Runs the real sm3 package over every message length of the tier's grid, random partitions into 1..8 writes (incl. empty and buffer-recycling writes), exhaustively enumerated op sequences over {Write,Sum(nil),Sum(prefix),Sum(prefix+cap),Reset} to depth 4 (quick) / 5 (thorough) plus random traces to length 8, HMAC/PBKDF2 instantiations and multi-MiB streams; a monitor compares every observable result with a model that remembers the bytes written since Reset and an independent SM3. Held = no divergence on the executions produced.",
             "Trusted: /verif/ref SM3 (validated at start of every run against the GM/T 0004 vectors), Go crypto/hmac and x/crypto/pbkdf2. Sampling by length class, not all contents.",
             "DESIGN.md §5 C04"),
+    "C05": ("exploration",
+            "differential reference-model monitor (SM4 with S-box computed from its algebraic definition) with measured S-box lane coverage; history monitor on one cipher object with canary buffers",
+            "Runs sm4.NewCipher Encrypt/Decrypt on structured (single-bit, all-zero/one) and random (key, block) pairs until every S-box input value was observed in every byte lane of data path and key schedule; random Encrypt/Decrypt histories on one object with dst==src and disjoint canary buffers, each step compared with the stateless reference; key lengths 0..64. Held = no divergence on the executions produced.",
+            "Trusted: /verif/ref SM4 (GM/T 0002 vector and 1e6-iteration vector in setup). (key,block) space is sampled.",
+            "DESIGN.md §5 C05"),
+    "C11": ("exploration",
+            "differential monitor against crypto/cipher modes over the reference SM4 + canary-buffer memory-ownership monitor",
+            "Every plaintext length 0..1024 x {ECB,CBC,CFB,OFB} x (key,IV) groups (default zero IV and SetIV), inputs inside canary arrays with spare capacity {0,1,15,16,64}; ciphertext must equal the stdlib mode over the reference cipher of the PKCS#7-padded plaintext, obey the length rule, decrypt back, and no caller memory (input, key, IV, spare capacity, guard zones) may change.",
+            "Trusted: ref SM4, crypto/cipher CBC/CFB/OFB, ref PKCS#7 pad. Lengths exhaustive; keys/IVs sampled.",
+            "DESIGN.md §5 C11"),
+    "C12": ("exploration",
+            "differential monitor against crypto/cipher GCM over the reference SM4 (and over gmsm's block / the TLS suite construction), tag-sensitivity sweep, canary buffers",
+            "Exhaustive |A|x|P| grid 0..80 at |IV|=12, IV lengths 1..64, IVs with 0xff bytes, algebraically constructed IVs whose pre-counter block sits at the 32-bit wrap, inputs to 64 KiB, and a single-bit authentication sweep over key/IV/A/C; ciphertext and tag must equal standard GCM, decryption must return the plaintext of the reference ciphertext, caller memory must be untouched.",
+            "Trusted: crypto/cipher generic GCM over ref SM4, pinned by the RFC 8998 A.1 vector at start of run.",
+            "DESIGN.md §5 C12"),
 }
 
 NOT_YET = {}
